@@ -83,7 +83,7 @@ def main():
     for (f, i, old, new, op) in muts:
         if n >= maxm:
             break
-        if (f, i, op) in done:
+        if (f, i + 1, op) in done:
             continue
         path = os.path.join(LAB, "repo", f)
         src = open(path).read().split("\n")
